@@ -1496,7 +1496,7 @@ package ro
 //@   params ctx
 //@   scope completed ctx destination hasEmptyQueue mu muEmit outerCtx sources subscriptions values
 //@   maypanic
-//@   trusted nopanic/index : the queues are indexed in range because len(values) == len(sources) and hasEmptyQueue() just reported every queue non-empty under the same lock; not proved here (quantified facts about a slice of slices)
+//@   trusted nopanic/index : the queues are indexed in range because len(values) == len(sources) and hasEmptyQueue() just reported every queue non-empty under the same lock, and the teardown keeps both slices (zipAllInnerSubscriptions$3); not proved here (quantified facts about a slice of slices) - the bounded stand-in of C05 / C08 runs the real function
 //@   track destination.* loop.*
 //@   ensures [take-and-delivery-are-one-step-for-the-other-sources|C05] heldat(muEmit, destination.ANY) && notheldat(mu, destination.ANY)
 //@   ensures [at-most-one-tuple-per-update|C05] count(destination.NextWithContext) <= 1
@@ -1509,6 +1509,19 @@ package ro
 
 //@ loop zipAllInnerSubscriptions$1#0
 //@   iteration emits
+
+//@ func zipAllInnerSubscriptions$3
+//@   note the teardown of the variadic Zip: the sources are released, the queues emptied - the slices of queues and flags themselves stay, because an update that is delivering a tuple right now (the downstream may end from inside its Next) indexes them afterwards
+//@   props C14 C07 C05 C03
+//@   binds mu values completed subscriptions
+//@   requires len(completed) == len(values)
+//@   maypanic
+//@   track subscriptions.* loop.*
+//@   ensures [releases-the-sources-then-empties-the-queues-and-keeps-the-slices|C14,C07,C05,C03] !panics ==> trace(subscriptions.Unsubscribe(), loop.L0) && len(values) == len(old(values))
+
+//@ loop zipAllInnerSubscriptions$3#0
+//@   invariant 0 <= it && it <= len(ranged)
+//@   invariant len(values) == len(old(values))
 
 // Random sources: `count` readings of the random source, each delivered as it is drawn, then completion.
 
